@@ -149,6 +149,13 @@ func checkC11(ctx *Ctx, c *Case, rounds int) error {
 	}
 	announce(ctx, c)
 	shared := model.BuildP(t, d.ProtoReflect())
+	if digest(c.Bytes)%2 == 0 {
+		// as an application would obtain it: through the generated decoder
+		dec := t.New()
+		if err := proto.Unmarshal(unhex(c.Bytes), dec); err == nil {
+			shared = dec
+		}
+	}
 	byG := map[int][]Op{}
 	maxG := 0
 	for _, op := range c.Ops {
